@@ -66,13 +66,21 @@ class LevelsDriver:
         for where, q in (("reference-unit", float(Decimal(ref.magnitude) * factor) * ref.unit),):
             pass
         dec = ev.get("mk") == "Decimal"
+        as_int = ev.get("mk") == "int"
 
         def num(x):
-            """the magnitude in the kind this case is written in (28 significant digits for Decimal)"""
-            return +Decimal(x).normalize(DEC28) if dec else float(x)
+            """the magnitude in the kind this case is written in (28 significant digits for Decimal; an int when the
+            case says so and the value is integral)"""
+            if dec:
+                return +Decimal(x).normalize(DEC28)
+            if as_int and Decimal(x) == Decimal(x).to_integral_value():
+                return int(Decimal(x))
+            return float(x)
         q_ref = num(Decimal(repr(ref.magnitude)) * factor) * ref.unit
         if dec:
             tag += "[Decimal]"
+        if as_int:
+            tag += "[int]"
         try:
             q_other = q_ref.in_unit(self.other[ev["r"] - 1])
         except Exception:
@@ -87,7 +95,7 @@ class LevelsDriver:
                 continue
             stats["ok"] = stats.get("ok", 0) + 1
             if abs(float(lv.magnitude) - float(L)) > 1e-9 * abs(float(L)) + 1e-9:
-                mm.append(self._mm("level:value:%s:%s:%s%s" % (kind, "prefixed-logarithm" if f["pb"] else "plain-logarithm", where, ":decimal" if dec else ""),
+                mm.append(self._mm("level:value:%s:%s:%s%s" % (kind, "prefixed-logarithm" if f["pb"] else "plain-logarithm", where, ":decimal" if dec else ":int" if as_int else ""),
                                    "%s: level of %s is %r, the definition gives %s" % (tag, q, lv.magnitude, float(L))))
             try:
                 back = lv.quantify()
@@ -104,7 +112,7 @@ class LevelsDriver:
             q0 = lv0.quantify()
             want = float(Decimal(repr(ref.unprefixed().magnitude)) * factor)
             if abs(float(q0.magnitude) - want) > 1e-9 * abs(want):
-                mm.append(self._mm("quantify:value:%s:%s%s" % (kind, "prefixed-logarithm" if f["pb"] else "plain-logarithm", ":decimal" if dec else ""),
+                mm.append(self._mm("quantify:value:%s:%s%s" % (kind, "prefixed-logarithm" if f["pb"] else "plain-logarithm", ":decimal" if dec else ":int" if as_int else ""),
                                    "%s: %s * unit quantifies to %s, the definition gives %s %s" % (tag, float(L), q0, want, ref.unprefixed().unit)))
             l1 = q0.level(unit)
             if abs(float(l1.magnitude) - float(L)) > 1e-9 * abs(float(L)) + 1e-9:
